@@ -44,7 +44,8 @@ class ModesTaint:
                         changed = True
 
     def derived(self, e: ast.AST) -> bool:
-        """The expression denotes the requested mode tuple itself (possibly re-wrapped, order kept)."""
+        """The expression denotes the requested mode tuple itself, re-wrapped or mapped elementwise with its order
+        kept (2 * modes, 2 * modes + 1, concatenations / lists of such images)."""
         if _is_modes_source(e):
             return True
         if isinstance(e, ast.Name):
@@ -53,6 +54,14 @@ class ModesTaint:
             nm = (dotted(e.func) or "").split(".")[-1]
             if nm in ORDER_KEEPING and e.args:
                 return self.derived(e.args[0])
+            if nm in ("concatenate", "hstack", "stack", "column_stack", "ravel", "flatten", "reshape") and e.args:
+                return self.derived(e.args[0])
+        if isinstance(e, ast.BinOp) and isinstance(e.op, (ast.Add, ast.Sub, ast.Mult)):
+            l, r = self.derived(e.left), self.derived(e.right)
+            const = lambda x: isinstance(x, ast.Constant) or (isinstance(x, ast.Name) and x.id not in self.t)  # noqa: E731
+            return (l and (const(e.right) or r)) or (r and const(e.left))
+        if isinstance(e, (ast.List, ast.Tuple)) and e.elts:
+            return all(self.derived(x) for x in e.elts)
         return False
 
     def destroyed(self, e: ast.AST) -> Optional[str]:
@@ -70,16 +79,7 @@ def run(ctx: Context) -> None:
     idx = get_index(ctx.repo)
     reg = get_registry(idx)
     res = get_resolver(idx)
-    ctx.explanation = (
-        "Order-preservation rule on the dataflow of the requested mode tuple: names derived from instruction.modes are "
-        "followed through the steps, the state methods and the helpers that receive them (by the callee's parameter), "
-        "and two deny patterns are searched: a permutation-blind fullness comparison of set(modes) with set(range(...)), "
-        "and a sorted/unique/set round trip of the tuple that is bound, passed on or returned. Decides this necessary "
-        "clause; it does not decide permutation covariance of the computed index lists."
-    )
-    ctx.rule("C16a", "no fullness test of the requested modes is permutation-blind (set(modes) vs set(range(...)))")
-    ctx.rule("C16b", "the requested mode tuple is never replaced by a sorted/unique/set version of itself")
-    # roots: steps and methods of state classes; propagate taint into callees by parameter
+    _explain(ctx)
     roots: List[Tuple[FuncInfo, Set[str]]] = []
     for s in reg.simulators:
         for st in s.steps():
@@ -90,6 +90,28 @@ def run(ctx: Context) -> None:
             for c in [s.state_class] + s.state_class.mro():
                 for m in c.methods.values():
                     roots.append((m, {p for p in m.all_params() if p in ("modes", "mode")}))
+    n_funcs, n_uses = scan_order(ctx, res, roots, "C16a", "C16b")
+    ctx.count("functions examined", n_funcs)
+    ctx.require_floor("functions examined", n_funcs, 150)
+    ctx.require_floor("uses of the requested mode tuple followed", n_uses, 150)
+    ctx.obligation("C16a", "package|fullness-tests-order-sensitive", not any(f.rule == "C16a" for f in ctx.findings))
+    ctx.obligation("C16b", "package|mode-order-kept", not any(f.rule == "C16b" for f in ctx.findings))
+
+
+def _explain(ctx: Context) -> None:
+    ctx.explanation = (
+        "Order-preservation rule on the dataflow of the requested mode tuple: names derived from instruction.modes are "
+        "followed through the steps, the state methods and the helpers that receive them (by the callee's parameter), "
+        "and two deny patterns are searched: a permutation-blind fullness comparison of set(modes) with set(range(...)), "
+        "and a sorted/unique/set round trip of the tuple that is bound, passed on or returned. Decides this necessary "
+        "clause; it does not decide permutation covariance of the computed index lists."
+    )
+    ctx.rule("C16a", "no fullness test of the requested modes is permutation-blind (set(modes) vs set(range(...)))")
+    ctx.rule("C16b", "the requested mode tuple is never replaced by a sorted/unique/set version of itself")
+
+
+def scan_order(ctx: Context, res, roots, rule_a: str, rule_b: str) -> Tuple[int, int]:
+    """Follow the requested mode tuple from the roots through callees; report the two deny patterns."""
     work = list(roots)
     seen: Dict[int, Set[str]] = {}
     n_funcs = 0
@@ -117,13 +139,13 @@ def run(ctx: Context) -> None:
 
                 if (is_set_of_modes(sides[0]) and is_full_range(sides[1])) or (is_set_of_modes(sides[1]) and is_full_range(sides[0])):
                     key = f"{fn.qualname}|{norm(n)}"
-                    ctx.violation("C16a", key, fn.file, n.lineno,
+                    ctx.violation(rule_a, key, fn.file, n.lineno,
                                   f"`{norm(n)}` decides whether all modes are addressed without looking at their order: "
                                   f"Q(1, 0) and Q(0, 1) take the same path, so the outcome tuples (or the reduced state) come out in "
                                   f"natural mode order instead of the requested order", norm(n))
                 # order-sensitive fullness tests are what the rule wants; record them
                 if any(mt.derived(s) for s in sides) and any(isinstance(s, ast.Call) and "range" in norm(s) for s in sides):
-                    ctx.instance("C16a", f"{fn.qualname}|{norm(n)}", "order-sensitive", f"{ctx.relpath(fn.file)}:{n.lineno}")
+                    ctx.instance(rule_a, f"{fn.qualname}|{norm(n)}", "order-sensitive", f"{ctx.relpath(fn.file)}:{n.lineno}")
             # (b) destroyed order that is bound / passed / returned
             cand: List[Tuple[ast.AST, str]] = []
             if isinstance(n, ast.Assign):
@@ -143,7 +165,7 @@ def run(ctx: Context) -> None:
                     continue
                 if d:
                     key = f"{fn.qualname}|{norm(e)}"
-                    ctx.violation("C16b", key, fn.file, n.lineno,
+                    ctx.violation(rule_b, key, fn.file, n.lineno,
                                   f"`{norm(e)}` replaces the requested mode tuple by a {d}-ordered version that is {how}: the order in which "
                                   f"the user addressed the modes is lost", norm(e))
             if isinstance(n, ast.Name) and n.id in mt.t and isinstance(n.ctx, ast.Load):
@@ -165,8 +187,4 @@ def run(ctx: Context) -> None:
                         tp2.add(kw.arg)
                 if tp2:
                     work.append((t, tp2))
-    ctx.count("functions examined", n_funcs)
-    ctx.require_floor("functions examined", n_funcs, 150)
-    ctx.require_floor("uses of the requested mode tuple followed", n_tainted_uses, 150)
-    ctx.obligation("C16a", "package|fullness-tests-order-sensitive", not any(f.rule == "C16a" for f in ctx.findings))
-    ctx.obligation("C16b", "package|mode-order-kept", not any(f.rule == "C16b" for f in ctx.findings))
+    return n_funcs, n_tainted_uses
